@@ -188,6 +188,51 @@ func (o *optimizer) optimizeDelayCall() {
 	)
 }
 
+// a func type without any invalid param / result type
+func isValidFuncType(ty types.Type) bool {
+	sig, _ := ty.(*types.Signature)
+	if sig == nil {
+		return false
+	}
+	valid := func(tuple *types.Tuple) bool {
+		for i := 0; i < tuple.Len(); i++ {
+			if containsInvalid(tuple.At(i).Type()) {
+				return false
+			}
+		}
+		return true
+	}
+	return valid(sig.Params()) && valid(sig.Results())
+}
+
+func containsInvalid(ty types.Type) bool {
+	switch t := ty.(type) {
+	case *types.Basic:
+		return t.Kind() == types.Invalid
+	case *types.Pointer:
+		return containsInvalid(t.Elem())
+	case *types.Slice:
+		return containsInvalid(t.Elem())
+	case *types.Array:
+		return containsInvalid(t.Elem())
+	case *types.Chan:
+		return containsInvalid(t.Elem())
+	case *types.Map:
+		return containsInvalid(t.Key()) || containsInvalid(t.Elem())
+	case *types.Signature:
+		return !isValidFuncType(t)
+	case *types.Named:
+		if args := t.TypeArgs(); args != nil {
+			for i := 0; i < args.Len(); i++ {
+				if containsInvalid(args.At(i)) {
+					return true
+				}
+			}
+		}
+	}
+	return false
+}
+
 // eat reduction overrides this particularity optimization
 // no longer required
 func (o *optimizer) optimizeBindCall() {
@@ -343,7 +388,8 @@ func (o *optimizer) etaReduction() {
 	// not for func(int) int { return f() }, func(x int) any { return g(x) }, func(xs ...int) int { return h(xs) }
 	sameType := func(ctx astmatcher.Ctx, lit ast.Node, fun ast.Expr) bool {
 		litTy, funTy := ctx.TypeOf(lit.(ast.Expr)), ctx.TypeOf(fun)
-		return litTy != nil && funTy != nil && types.Identical(litTy, funTy)
+		// invalid types (e.g. declared in a file missing from the temp dir of go:generate mode) are identical to anything
+		return isValidFuncType(litTy) && isValidFuncType(funTy) && types.Identical(litTy, funTy)
 	}
 
 	o.m.Match(
